@@ -724,10 +724,37 @@ const c20SoupAlphabet = "abmv01.-/ \t\n\n\r\"`'\\()[]{},=>*/\x00\xff\xc2\x85\xa0
 
 var c20SoupTokens = []string{"module", "go", "require", "replace", "retract", "exclude", "tool", "use", "godebug", "toolchain", "(", ")", "[", "]", "{", "}", ",", "=>",
 	"a.b/c", "v1.0.0", "1.21", "\"x y\"", "`raw`", "\"unterminated", "`unterminated", "//c", "// c", "/*", "*/", "/* x */", "a//b", "a/*b", "\"esc\\\"q\"", "\"\\", "x/", "/",
-	"\xff", "\xc2", "\u00a0", "\u2028", "\u0085", "\ufeff", "\x00", "\x7f", "é", "日本", "'q'", "a\"b", "\\", "=", "\"\"", "``", "\"\\x41\\u00e9\\U0001F600\\101\\n\"", "\"\\q\""}
+	"\xff", "\xc2", "\u00a0", "\u2028", "\u0085", "\ufeff", "\x00", "\x7f", "é", "日本", "'q'", "a\"b", "\\", "=", "\"\"", "``", "\"\\x41\\u00e9\\U0001F600\\101\\n\"", "\"\\q\"", "\"p\\\nq\""}
+
+// c20EscapedNewlineLine: a line with a double-quoted token containing backslash-newline (the lexer
+// accepts it, so the Line spans two source lines), with or without end-of-line comments around it.
+func c20EscapedNewlineLine(r *Rand) string {
+	tok := r.Pick([]string{"\"p\\\nq\"", "\"\\\n\"", "\"a b\\\n c\\\nd\"", "\"\\\\\\\n\""})
+	words := []string{"a", "b", "x", "use", "require", "v1.0.0"}
+	line := []string{}
+	for n := r.Intn(3); n > 0; n-- {
+		line = append(line, r.Pick(words))
+	}
+	line = append(line, tok)
+	for n := r.Intn(2); n > 0; n-- {
+		line = append(line, r.Pick(words))
+	}
+	out := ""
+	if r.Chance(60) {
+		out = r.Pick(words) + " " + r.Pick(words) + c20Suffix(r, 60) + "\n"
+	}
+	out += strings.Join(line, " ") + c20Suffix(r, 60) + "\n"
+	if r.Chance(30) {
+		out = "r (\n\t" + strings.ReplaceAll(strings.TrimSuffix(out, "\n"), "\n", "\n\t") + "\n)" + c20Suffix(r, 30) + "\n"
+	}
+	return out
+}
 
 func c20Soup(r *Rand) string {
 	var b strings.Builder
+	if r.Chance(8) {
+		b.WriteString(c20EscapedNewlineLine(r))
+	}
 	for n := r.Intn(14); n > 0; n-- {
 		b.WriteString(r.Pick(c20SoupTokens))
 		b.WriteString(r.Pick([]string{" ", " ", "", "\n", "\n", "\t", "\r\n", " \n", "  "}))
@@ -799,6 +826,7 @@ var c20Boundary = []string{"", "\n", "\r", "\r\n", " ", "//", "//\n", "// c", "/
 	"retract [\"v1.0.0\", 'x']\n", "retract \"v1 .0\"\n", "require \"(\" v1.0.0\n", "x ( ) (\n)\n", "a\u00a0// c\n", "a \xc2// c\n", "\u2028// c\n", "x y // c1 // c2\n", "x\t//c\r\n",
 	"module example.com/m\nrequire future (\n\texample.com/extra v1.0.0\n)\n", "module example.com/m\nrequire v2 (\n\texample.com/extra v1.0.0\n)\nretract because (\n\tv1.5.0\n)\n",
 	"module also (\n\texample.com/other\n)\nmodule example.com/m\n", "go x (\n\t1.21\n)\n", "exclude a b (\n\tgarbage [ , ]\n)\nuse x (\n\t./a\n)\n", "x % y // 100% %s %d\n",
+	"a b // c1\nx \"p\\\nq\" // c2\n", "r (\n\ta b // c1\n\tx \"p\\\nq\" // c2\n)\n", "x \"p\\\nq\"\n", "x \"\\\\\\\nq\"\n",
 	"module \"a//b\"\n", "module `x`\n", "module 'x'\n", "  module   x  \n", "module\tx\r\n", "module x\r", "modulex y\n", "module\u00a0x\n"}
 
 func c20Nontrivial(s string) bool {
@@ -1138,6 +1166,9 @@ func c20ModuleBlockHeaderBefore(f *modfile.File) bool {
 	return false
 }
 
+// c20SigCount counts reports per classified (known-shape) signature.
+var c20SigCount = map[string]int{}
+
 func c20Guard(g *Gen, what string, ops []string, f func()) {
 	done := make(chan string, 1)
 	go func() {
@@ -1228,7 +1259,13 @@ func c20OracleInput(g *Gen, s, tag string) {
 						} else if c20ModuleBlockHeaderBefore(strict) {
 							sig = "modulepath-module-block-header"
 						}
-						g.Fail(sig, fmt.Sprintf("ModulePath=%q strict=%q input=%q", got, strict.Module.Mod.Path, s), "modfile.modulepath "+h, "modfile.parse nofix "+h)
+						// the two block-unaware shapes are reported a few times only, so that they cannot
+						// crowd other failures out of the (bounded) failure list
+						if c20SigCount[sig]++; sig == "modulepath-disagrees" || c20SigCount[sig] <= 3 {
+							g.Fail(sig, fmt.Sprintf("ModulePath=%q strict=%q input=%q", got, strict.Module.Mod.Path, s), "modfile.modulepath "+h, "modfile.parse nofix "+h)
+						} else {
+							g.Case("repeat:" + sig)
+						}
 					}
 				}
 			}
@@ -1285,8 +1322,24 @@ func c20CheckLaxIgnores(g *Gen, chunks, with []string, blocks int, tag string) {
 		return
 	}
 	ext := strings.Join(with, "\n")
-	// the inserted chunk itself must be syntactically fine (its generator may produce odd atoms)
-	if _, err := modfile.ParseSyntax(c20FileName, []byte(ext)); err != nil {
+	// the inserted chunks must be syntactically fine (their generator may produce odd atoms) and must
+	// each have become exactly one more top-level statement (a base chunk such as `tool (` can open a
+	// block that swallows what follows; that is not an insertion "between statements")
+	t0, err0 := modfile.ParseSyntax(c20FileName, []byte(base))
+	t1, err1 := modfile.ParseSyntax(c20FileName, []byte(ext))
+	if err0 != nil || err1 != nil || len(t1.Stmt) != len(t0.Stmt)+len(with)-len(chunks) {
+		return
+	}
+	// … and the statements of the base file must all still be there, unchanged and in order
+	s0, _ := c02Shape(t0)
+	s1, _ := c02Shape(t1)
+	j := 0
+	for _, x := range s1 {
+		if j < len(s0) && x == s0[j] {
+			j++
+		}
+	}
+	if j != len(s0) {
 		return
 	}
 	g.Case(tag)
